@@ -291,6 +291,40 @@ func Narrow(p *core.Prog, r *core.Report) {
 				r.OK(rule, "native-dispatch:"+fname, p.Pos(f.Pos()), "each of the 12 numeric carrier kinds reaches the comparator of its own exact arithmetic")
 			}
 		}
+		// the range check of a constraint / datum against (type, format) accepts every numeric carrier as a number:
+		// evaluated per carrier kind, its kind switch never ends in the "not a numeric value" error (a case list
+		// that loses a kind makes every uint64 — or int16 … — datum invalid whatever its value)
+		if f := p.Func("IsValueValidAgainstRange"); f != nil && len(f.Params) >= 1 {
+			var wrong []string
+			for _, cr := range carriers {
+				di := newRegionInterp(p, na)
+				args := make([]aval, len(f.Params))
+				for k := range args {
+					args[k] = top
+				}
+				args[0] = dyn(cr.a)
+				di.run(f, args, 0)
+				nDisp++
+				// the arm that gives up at once: a block that builds an error with fmt.Errorf and returns it
+				core.EachInstr(f, func(i ssa.Instruction) {
+					c, ok := i.(*ssa.Call)
+					if !ok || !di.reached[c.Block()] {
+						return
+					}
+					if h := core.StaticCallee(c); h == nil || core.QualName(h) != "fmt.Errorf" {
+						return
+					}
+					if _, isRet := c.Block().Instrs[len(c.Block().Instrs)-1].(*ssa.Return); isRet {
+						wrong = append(wrong, cr.a.String())
+					}
+				})
+			}
+			if len(wrong) > 0 {
+				r.Bad(rule, "native-dispatch:IsValueValidAgainstRange", p.Pos(f.Pos()), "the range check does not take these Go numeric kinds for numbers: "+strings.Join(uniq(wrong), ", ")+" — a datum of such a type is invalid whatever its value")
+			} else {
+				r.OK(rule, "native-dispatch:IsValueValidAgainstRange", p.Pos(f.Pos()), "each of the 12 numeric carrier kinds is taken for a number by the range check")
+			}
+		}
 		r.Count("native_dispatch_cases", nDisp)
 		r.Floor("native_dispatch_cases", 36)
 	}
